@@ -30,7 +30,7 @@ and then ran the quick check of the targeted property on a scratch worktree with
 (`bin/seedtest.sh`). "first missed" notes say what was strengthened when a check did not catch a change at
 first; no check was loosened. %d changes, %d caught by the quick tier of the final machinery; %d of them were
 caught by the check of their target property the first time it was run against them, the others after the
-driver or the check was strengthened as the note says (seven rounds of changes, the last one 18 of 20; the rate of first-run catches per
+driver or the check was strengthened as the note says (eight rounds of changes, the last two 18 and 16 of 20; the rate of first-run catches per
 round is what to expect for a change nobody has looked at yet).
 
 | seeded change | needs, to manifest | caught by (quick tier) | note |
